@@ -188,3 +188,18 @@ Theorem C09_names_ok_nonvacuous :
                  In ([2%nat; 0%nat], [47; 99; 49; 49; 47; 120; 97]) out) /\
   apropos (map render_port ex_names) [47; 99; 49; 49; 47; 120; 97] = AFound [2%nat; 0%nat].
 Proof. exact ex_names_ok. Qed.
+
+(* Observation (not a theorem about every tree): a multi-component sub-tree
+   name ("a/b/") paired with the macro recursion callback (rRecurCb, whose SNIP
+   strips ONE component) is walked as /a/b/x but dispatches to no leaf - the
+   shape C09_dispatchable excludes; names_ok is false on it.  Reproduced on the
+   real code: corpus/C09/defects.txt (kind X).  The macros themselves cannot
+   produce such a name (rRecur(name) stringifies a C identifier); a
+   hand-written callback that strips as many components as the name has (the
+   harness's kind M) dispatches them. *)
+Theorem C09_multicomponent_macro_refuted :
+  walk None (map render_port ex_multi) [] = WOk [([0%nat; 0%nat], [47; 97; 47; 98; 47; 120])] [47] /\
+  (let d := dispatch (to_tree no_hash_search one_id ex_multi) [47; 97; 47; 98; 47; 120] [] true 0 in
+   matches d = 0 /\ leaf_count (log d) = 0 /\ length (log d) = 1%nat) /\
+  names_ok ex_multi = false.
+Proof. exact multicomponent_macro_refuted. Qed.
